@@ -308,9 +308,13 @@ def check(ctx):
     with ctx.shared({"C05.R6": ("C08.R6", "recovery state: request_session_id is cleared only by a completed synchronisation, so after any failed "
                                 "exchange the client restarts from a query that matches the data it holds"),
                      "C07.R3": ("C08.R7", "expiry as last-resort recovery: the purge empties both tables and forces a Reset Query "
-                                "(request_session_id = true, serial 0)")}):
+                                "(request_session_id = true, serial 0)"),
+                     "C07.R2": ("C08.R11", "last_update (the socket's only memory of 'records of mine are in the tables') is zeroed only where both "
+                                "tables were purged: with it zeroed while records remain, the reload after a Cache Reset is applied on top of "
+                                "them (duplicate announcements, the reload fails again and again) and the expiry purge never fires")}):
         C05.r6(ctx, retsets)
         C07.r3(ctx, retsets)
+        C07.r2(ctx, retsets)
     from specs import C03
     with ctx.shared({"C03.R2": ("C08.R8", "the serial number advances only together with the data: after a response that was rolled back the next query "
                                 "asks for the same data again (otherwise the client stays ESTABLISHED on stale records)")}):
